@@ -76,6 +76,9 @@ M = [
  ('C09-m7', 'C09', CORE + 'validator/cedar_schema/to_json_schema.rs', '                    tags: d.tags.map(cedar_type_to_json_type),', '                    tags: d.tags.filter(|_| false).map(cedar_type_to_json_type),'),
  ('C03-m20', 'C03', CORE + 'validator/typecheck.rs', '                                if !self.any_entity_type_decedent_of(lhs_etys, rhs_etys) =>', '                                if self.any_entity_type_decedent_of(lhs_etys, rhs_etys) =>'),
  ('C03-m21', 'C03', CORE + 'validator/typecheck.rs', '                    (Some(lhs_euid), Some(rhs_euids)) if lhs_euid.is_action() => self', '                    (Some(lhs_euid), Some(rhs_euids)) if lhs_euid.is_action() || true => self'),
+ ('C05-m1', 'C05', CORE + 'est/expr.rs', '            ExprNoExt::Less { left, right } => {\n                maybe_with_parens(f, left, n)?;\n                write!(f, " < ")?;', '            ExprNoExt::Less { left, right } => {\n                maybe_with_parens(f, left, n)?;\n                write!(f, " <= ")?;'),
+ ('C05-m2', 'C05', CORE + 'est/expr.rs', '                write!(f, " - ")?;\n                maybe_with_parens(f, right, n)', '                write!(f, " - ")?;\n                BoundedDisplay::fmt(right.as_ref(), f, n)'),
+ ('C05-m3', 'C05', CORE + 'est/expr.rs', '        Expr::ExprNoExt(ExprNoExt::Like { .. }) |\n        Expr::ExprNoExt(ExprNoExt::Is { .. }) |\n        Expr::ExprNoExt(ExprNoExt::If { .. }) => {', '        Expr::ExprNoExt(ExprNoExt::Like { .. }) |\n        Expr::ExprNoExt(ExprNoExt::Is { .. }) => BoundedDisplay::fmt(expr, f, n),\n        Expr::ExprNoExt(ExprNoExt::If { .. }) => {'),
  ('C17-m1', 'C17', CORE + 'validator/entity_manifest.rs', '            if matches!(op, BinaryOp::In) {', '            if false && matches!(op, BinaryOp::In) {'),
  ('C17-m2', 'C17', CORE + 'validator/entity_manifest.rs', '            .union(entity_manifest_from_expr(then_expr)?)\n            .union(entity_manifest_from_expr(else_expr)?)),', '            .union(entity_manifest_from_expr(then_expr)?)),'),
  ('C17-m3', 'C17', CORE + 'validator/entity_manifest.rs', '        ExprKind::HasAttr { expr, attr } => Ok(entity_manifest_from_expr(expr)?\n            .get_or_has_attr(attr)\n            .empty_paths()),', '        ExprKind::HasAttr { expr, attr: _ } => Ok(entity_manifest_from_expr(expr)?\n            .empty_paths()),'),
